@@ -248,12 +248,12 @@ func H_C08_skip() {
 	out := vxrt.Stdout()
 	if ran["TestAB"] {
 		// TestAB ran and made one call: its second entry is stale whatever was skipped
-		_, _, err := getPrevSnapshot("[TestAB - 2]", path)
+		_, _, err := refPrev("[TestAB - 2]", path)
 		stillThere := err == nil
 		if mode == 0 {
 			vxrt.Reach("prefix-sibling-stale")
 			vxrt.Assert(!stillThere, "C08:skip-does-not-protect-prefix-sibling")
-			vxrt.Assert(strings.Contains(out, bulletSymbol+"TestAB - 2\n"), "C08:stale-entry-of-prefix-sibling-reported")
+			vxrt.Assert(strings.Contains(out, vxBullet+"TestAB - 2\n"), "C08:stale-entry-of-prefix-sibling-reported")
 		}
 	}
 	if mode == 0 {
@@ -285,9 +285,9 @@ func H_C08_skip() {
 			vxrt.Assert(!strings.Contains(out, "f_test.snap"), "C08:file-of-tests-that-did-not-run-not-listed")
 			continue
 		}
-		got, _, err := getPrevSnapshot("["+tn+" - 1]", path)
+		got, _, err := refPrev("["+tn+" - 1]", path)
 		vxrt.Assert(err == nil && got == bodies[tn], "C08:entry-of-test-that-did-not-run-kept")
-		vxrt.Assert(!strings.Contains(out, bulletSymbol+tn+" - 1\n"), "C08:entry-of-test-that-did-not-run-not-listed")
+		vxrt.Assert(!strings.Contains(out, vxBullet+tn+" - 1\n"), "C08:entry-of-test-that-did-not-run-not-listed")
 	}
 }
 
@@ -336,7 +336,7 @@ func H_C08_midskip() {
 	Clean(nil)
 	out := vxrt.Stdout()
 	vxrt.Assert(readFile(path) == content, "C08:entries-of-a-test-that-skipped-half-way-kept")
-	vxrt.Assert(!strings.Contains(out, bulletSymbol+"TestM - 2\n"), "C08:entries-of-a-test-that-skipped-half-way-not-listed")
+	vxrt.Assert(!strings.Contains(out, vxBullet+"TestM - 2\n"), "C08:entries-of-a-test-that-skipped-half-way-not-listed")
 	vxrt.Assert(strings.Contains(out, "TestOld_1.snap\n") && readFile(dir+"/TestOld_1.snap") == "<missing>", "C09:stale-standalone-reported-and-removed-despite-a-skip")
 	vxrt.Assert(strings.Contains(out, "legacy.snap\n") && readFile(dir+"/legacy.snap") == "<missing>", "C09:stale-custom-named-file-reported-and-removed-despite-a-skip")
 }
